@@ -291,10 +291,25 @@ class DisciplineJacApprox:
             msg = f"Inconsistent step size, expected {x_vect.size} got {len(step)}."
             raise ValueError(msg)
 
-        with self.__set_zero_cache_tol():
-            flat_jac = atleast_2d(
-                self.approximator.f_gradient(x_vect, x_indices=x_indices, step=step)
-            )
+        # The inputs that are not differentiated keep their current values
+        # (the function generated from the discipline reads them from the defaults).
+        defaults = self.discipline.io.input_grammar.defaults
+        original_defaults = dict(defaults)
+        defaults.update({
+            name: value
+            for name, value in self.discipline.io.get_input_data().items()
+            if name not in input_names
+        })
+        try:
+            with self.__set_zero_cache_tol():
+                flat_jac = atleast_2d(
+                    self.approximator.f_gradient(
+                        x_vect, x_indices=x_indices, step=step
+                    )
+                )
+        finally:
+            defaults.clear()
+            defaults.update(original_defaults)
 
         data_names_to_sizes = (
             self.discipline.io.output_grammar.data_converter.compute_names_to_sizes(
